@@ -49,12 +49,22 @@
 (*      incomparable; names differing only in circuit / suffix / extra segments)                                      *)
 (*  O2  SW / HW bytes that are not BCD against a file that states that version ("allow invalid SW and HW fields"      *)
 (*      only promises that the lookup goes on)                                                                        *)
-(*  O3  names outside the convention: a first segment of more than 5 characters, upper-case hex address or ident,     *)
-(*      ".CSV", two SW or two HW segments, a version segment in front of ident/circuit                                *)
-(*  O4  [S2] says "trailing 0", [S1] says "trailing digit": cutting back a non-zero digit is accepted either way      *)
+(*  O3  names outside the convention: a first segment of more than 5 characters, an upper-case ident, two SW or two   *)
+(*      HW segments, a version segment in front of ident / circuit / suffix, "SW"/"HW" + 4 characters that are not    *)
+(*      digits  (an upper-case hex address or ".CSV" is simply no candidate, R2)                                       *)
+(*  O4  [S2] says "trailing 0", [S1] says "trailing digit": P follows [S1] (any digit); DigitOpen = TRUE leaves a      *)
+(*      match through a non-zero digit open instead                                                                    *)
 (*  O5  a master address (scan.h: "either master for broadcast master data or slave"; the map has no scan message     *)
 (*      for masters)                                                                                                  *)
-(*  O6  the manufacturer byte 0xff (the "no value" of the byte type) is not enumerated                                   *)
+(*  O6  the manufacturer byte 0xff (the "no value" of the byte type) is not enumerated                                *)
+(*  O7  a definition without circuit in a file whose name gives neither ident nor circuit (ChangeLog: "use scan ID as *)
+(*      fallback for default circuit name"; the pinned code refuses such a file with "missing argument")              *)
+(* Not in the pinned tree: language variants (file.en.csv next to file.csv) - collectConfigFiles has no such rule, a   *)
+(* name like that is an ordinary name whose circuit is "en".  HTTP configuration sources are out of scope.             *)
+(* Known disagreements of the pinned code (reported as drift by checks/grow_scan.py, with reproductions):              *)
+(*  - R5: candidates are ranked by ident length, then by the length of the file name, so 08.bai.heating.csv beats      *)
+(*    08.bai.HW0304.csv on a device with HW 0304 (and 08.bai.heat.csv does not)                                        *)
+(*  - parseMessage appends to symbol strings that are not empty; main.cpp re-uses them across --inject arguments       *)
 (* Texts are sequences of character codes.                                                                            *)
 EXTENDS EbusSymbols, Integers
 
